@@ -681,7 +681,6 @@ def cache_histories(ctx):
                               dict(family='cache', template=tmpl, k=k, n=n),
                               'decompile() of a new code object `%s` returned the cached tree of a dead one: %s'
                               % (src, unparse_soft(tree)))
-                break
             again = decompile(code)[0]
             if again is not tree:
                 ctx.count('cache:miss_on_second_call')
@@ -699,7 +698,6 @@ def cache_histories(ctx):
         if got != i:
             ctx.violation('cache|closure cells served from cache', dict(family='cache', closure=i),
                           'decompile(f) for closure value %r returned cells with %r' % (i, got))
-            break
     return recycled
 
 # ---- driver -------------------------------------------------------------------------------------
